@@ -887,7 +887,8 @@ theorem lookup_any (k : Nat) (pe : List (Nat × List Nat)) (v : List Nat)
 inductive Reachable : Sys → Prop
   | init (v : Int) : Reachable { verbosity := v }
   | msg {s} (sec m : Nat) (th top : Int) (once : Bool) : Reachable s → Reachable (s.msg sec m th top once)
-  | reportErrors {s} (sec obj : Nat) (errs : List Nat) : Reachable s → Reachable (s.reportErrors sec obj errs)
+  | reportErrors {s} (sec obj : Nat) (errs : List Nat) (phase name : Nat) :
+      Reachable s → Reachable (s.reportErrors sec obj errs phase name)
 
 /-- whenever some object is recorded in `parse_errors`, at least one violation was counted -/
 theorem reachable_parse_errors_counted (s : Sys) (h : Reachable s) :
@@ -899,7 +900,7 @@ theorem reachable_parse_errors_counted (s : Sys) (h : Reachable s) :
     simp only [anyParseErrors, msg_parseErrors] at hp
     have := ih hp
     rw [msg_violations]; omega
-  | @reportErrors s sec obj errs _ ih =>
+  | @reportErrors s sec obj errs phase name _ ih =>
     intro hp
     unfold Sys.reportErrors at hp ⊢
     by_cases he : errs.isEmpty = true
@@ -994,7 +995,7 @@ theorem exit_status (s : Sys) (w : Bool) (h : Reachable s) :
 
 -- non-vacuity: a reachable state with a parse error; the three outcomes
 example : Reachable (({ verbosity := 0 } : Sys).reportErrors 0 7 [1, 2]) :=
-  .reportErrors 0 7 [1, 2] (.init 0)
+  .reportErrors 0 7 [1, 2] 0 7 (.init 0)
 example : (mainTail (({ verbosity := 0 } : Sys).reportErrors 0 7 [1, 2]) true).1 = 3 ∧
     (mainTail (({ verbosity := 0 } : Sys).reportErrors 0 7 [1, 2]) false).1 = 2 ∧
     (mainTail (({ verbosity := 0 } : Sys).report 3 1) false).1 = 0 ∧
